@@ -71,6 +71,8 @@ func (nz *normalizer) WalkStatement(node SQLNode) (bool, error) {
 		nz.convertComparison(node)
 	case *GroupConcatExpr:
 		nz.convertSeparator(node)
+	case *ShowFilter:
+		nz.convertShowLike(node)
 	}
 	return true, nil
 }
@@ -93,6 +95,13 @@ func (nz *normalizer) WalkSelect(node SQLNode) (bool, error) {
 func (nz *normalizer) convertSeparator(node *GroupConcatExpr) {
 	if node.Separator != "" {
 		node.Separator = " separator '" + nz.prefix + "'"
+	}
+}
+
+// convertShowLike masks the LIKE pattern of SHOW TABLES, which is kept as text and not as SQLVal
+func (nz *normalizer) convertShowLike(node *ShowFilter) {
+	if node != nil && node.Like != "" {
+		node.Like = nz.prefix
 	}
 }
 
